@@ -105,19 +105,159 @@ def must_pass_on_success(fn, bbs):
     return not success_returns_avoiding(fn, bbs)
 
 
+def _forwards_to(F, c, method_names):
+    """the method of `method_names` a local trait method forwards to in every one of its implementations
+    (`impl ReorgTable for BlockCachedDatabase { fn reorg_to(&mut self, n) { self.reorg(n) } }`), else None"""
+    tr = c.trait or ""
+    m = c.method or ""
+    if not tr or not m:
+        return None
+    impls = [g for g in F.fns.values() if (g.j.get("trait") or "") == tr and g.j.get("method") == m and g.blocks]
+    if not impls:
+        return None
+    found = set()
+    for g in impls:
+        inner = [x for x in g.calls() if not g.is_cleanup(x.bb)]
+        fw = [x for x in inner if (x.method or "") in method_names and x.args and _strip_all(origin(g, x.args[0]))[0] == "param"
+              and _strip_all(origin(g, x.args[0]))[1] == 1]
+        # nothing but the forwarding call (and `?` / conversions of its result), all arguments handed on unchanged
+        others = [x for x in inner if x not in fw and (x.method or "") not in ("branch", "from_residual", "into", "from")]
+        if len(fw) != 1 or others:
+            return None
+        if any(_strip_all(origin(g, a))[0] != "param" for a in fw[0].args[1:]):
+            return None
+        found.add(fw[0].method)
+    return found.pop() if len(found) == 1 else None
+
+
+def _strip_all(t):
+    while t[0] in ("deref", "ref", "cast"):
+        t = t[1]
+    return t
+
+
+def _table_of_accessors(F, fn, recv):
+    """receiver `(TABLE[i])(self)` of a call inside `for accessor in TABLE.iter()`: TABLE is a static array of non-capturing
+    closures `|db| <a table field of db>`; returns the fields the closures return (one per element) or None.  The loop must
+    draw every element (plain `iter()` / `into_iter()`, no adapter in between)."""
+    from terms import subst_params
+    t = _strip_all(recv)
+    if t[0] != "callind":
+        return None
+    callee, args = t[1], t[2]
+    statics = [x for x in _subterms(callee) if x[0] == "static"]
+    adapters = {x[1].split("::")[-1] for x in calls_in(callee)}
+    if len(statics) != 1 or not adapters <= {"iter", "into_iter", "next", "iter_mut", "deref"}:
+        return None
+    sname = statics[0][1]
+    closures = [g for g in F.fns.values() if g.kind == "closure" and g.blocks
+                and (g.j.get("parent") or "").endswith("::" + sname.split("::")[-1]) and g.name.startswith(sname + "::")]
+    if not closures:
+        return None
+    fields = []
+    import re as _re
+    def _ord(g):
+        m = _re.search(r"\{closure#(\d+)\}$", g.name)
+        return int(m.group(1)) if m else 10 ** 6
+    # closure ordinals follow source order: element i of the literal is {closure#i}
+    for g in sorted(closures, key=_ord):
+        gv = F.inlined(g)
+        rets = _return_values(gv)
+        if len(rets) != 1:
+            return None
+        rt = subst_params(rets[0], (("unknown", "closure-self"),) + tuple(args))
+        fl = self_fields(rt)
+        if len(set(fl)) != 1:
+            return None
+        fields.append(fl[0])
+    return fields
+
+
+def _subterms(t):
+    from terms import subterms
+    return subterms(t)
+
+
 def calls_on_field(fn, method_names):
-    """{field: [Call]} for calls whose callee method is in method_names and whose receiver derives from self.<field>"""
+    """{field: [Call]} for calls whose callee method is in method_names and whose receiver derives from self.<field>.
+    Two indirections are looked through: a local trait method that only forwards to the wanted method in all its impls
+    (`reorg_to` -> `reorg`), and a receiver obtained from a static table of field accessors iterated in full (the call then
+    stands for one call per table entry)."""
     out = {}
+    F = fn.facts
     for c in fn.calls():
         if fn.is_cleanup(c.bb):
             continue
         m = c.method or (c.target_path or "").split("::")[-1]
-        if m not in method_names or not c.args:
+        if not c.args:
             continue
-        flds = self_fields(origin(fn, c.args[0]))
+        if m not in method_names:
+            if not (c.trait and c.target_id and c.target_id in F.fns and not F.fns[c.target_id].blocks or (c.trait or "").startswith("db::")):
+                continue
+            if _forwards_to(F, c, method_names) is None:
+                continue
+        recv = origin(fn, c.args[0])
+        flds = self_fields(recv)
+        if not flds:
+            tf = _table_of_accessors(F, fn, recv)
+            drv = _loop_driver(fn, c) if tf else None
+            if tf and drv is not None:
+                for i, f in enumerate(tf):
+                    out.setdefault(f, []).append(VCall(c, i, drv[0], drv[1]))
+            continue
         for f in flds[:1]:
             out.setdefault(f, []).append(c)
     return out
+
+
+class VCall:
+    """one entry of a table-driven call site: the call `c` inside `for accessor in TABLE.iter()` standing for TABLE[index]"""
+    virtual = True
+
+    def __init__(self, c, index, driver_bb, body):
+        self.c, self.index, self.driver_bb, self.body = c, index, driver_bb, body
+        self.bb, self.args, self.method, self.self_ty, self.target_path, self.t = c.bb, c.args, c.method, c.self_ty, c.target_path, c.t
+        self.trait, self.path, self.line = c.trait, c.path, c.line
+
+    def where(self):
+        return self.c.where()
+
+
+def _loop_driver(fn, c):
+    """(block of the `next()` call that drives the innermost loop around call c, that loop's body) when every iteration passes c"""
+    import looprule as LR
+    inner = [(h, body) for (h, body, backs) in LR.natural_loops(fn) if c.bb in body]
+    if not inner or not LR.every_cycle_passes(fn, c.bb):
+        return None
+    h, body = min(inner, key=lambda x: len(x[1]))
+    nx = [x for x in fn.calls() if x.bb in body and (x.method or "") == "next" and not fn.is_cleanup(x.bb)]
+    if len(nx) != 1:
+        return None
+    return nx[0].bb, body
+
+
+def on_every_success_path(fn, cs):
+    """some call of cs is executed on every success path (a table-driven entry: its loop is entered on every success path and
+    every iteration passes the call - the table is a non-empty literal, each entry is drawn)"""
+    real = [c.bb for c in cs if not getattr(c, "virtual", False)]
+    virt = [c for c in cs if getattr(c, "virtual", False)]
+    if real and must_pass_on_success(fn, real):
+        return True
+    return any(must_pass_on_success(fn, [v.driver_bb]) for v in virt)
+
+
+def precedes(fn, a, b):
+    """a is executed before b on every success path that reaches b"""
+    va, vb = getattr(a, "virtual", False), getattr(b, "virtual", False)
+    if va and vb:
+        if a.c is b.c:
+            return a.index < b.index
+        return b.driver_bb not in a.body and fn.sdominates(a.driver_bb, b.driver_bb)
+    if va:
+        return b.bb not in a.body and fn.sdominates(a.driver_bb, b.bb)
+    if vb:
+        return a.bb not in b.body and fn.sdominates(a.bb, b.driver_bb)
+    return fn.sdominates(a.bb, b.bb) and a.bb != b.bb
 
 
 def db_fn(F, method):
@@ -176,8 +316,8 @@ def clause_tables(R, F, dmethod, only_fields=None):
             continue
         meth = want[short]
         cs = calls_on_field(fn, {meth}).get(field, [])
-        cs = [c for c in cs if short in (c.self_ty or c.target_path or "")]
-        ok = bool(cs) and must_pass_on_success(fn, [c.bb for c in cs])
+        cs = [c for c in cs if getattr(c, "virtual", False) or short in (c.self_ty or c.target_path or "")]
+        ok = bool(cs) and on_every_success_path(fn, cs)
         n += 1
         R.ob(ok, "TABLES", fn.where(), "TABLES|%s|%s" % (dmethod, field),
              "%s does not call %s::%s on self.%s on every success path%s" % (
@@ -338,14 +478,14 @@ def clause_commit_order(R, F):
         if field == src:
             continue
         for c in commits.get(field, []):
-            R.ob(fn.sdominates(hb, c.bb) and hb != c.bb, "DOM-order", c.where(), "DOM-order|commit_changes|%s<%s" % (src, field),
+            R.ob(precedes(fn, hs[0], c), "DOM-order", c.where(), "DOM-order|commit_changes|%s<%s" % (src, field),
                  "commit of table %s is not dominated by the commit of the table the height is read from after a reopen (%s): a crash in "
                  "between reopens at a height below rows that are already persisted, and a reorg to that height is a no-op that leaves "
                  "them behind" % (field, src),
                  sample={"rule": "DOM-order", "first": src, "then": field})
     for f2, cs in flush.items():
         for c in cs:
-            R.ob(fn.sdominates(c.bb, hb), "DOM-order", c.where(), "DOM-order|commit_changes|flush<%s" % src,
+            R.ob(precedes(fn, c, hs[0]) or c.bb == hb, "DOM-order", c.where(), "DOM-order|commit_changes|flush<%s" % src,
                  "flush of %s does not precede the height table commit" % f2, sample={"rule": "DOM-order", "first": f2 + ".flush", "then": src})
     # clear_caches after all commits
     cc = [c for c in fn.calls() if (c.method or "") == "clear_caches" and not fn.is_cleanup(c.bb)]
@@ -354,7 +494,7 @@ def clause_commit_order(R, F):
     for c in cc:
         for fld, cs in commits.items():
             for x in cs:
-                R.ob(fn.sdominates(x.bb, c.bb), "DOM-order", c.where(), "DOM-order|commit_changes|%s<clear" % fld,
+                R.ob(precedes(fn, x, c), "DOM-order", c.where(), "DOM-order|commit_changes|%s<clear" % fld,
                      "caches are dropped before %s is committed" % fld)
 
 
@@ -364,12 +504,13 @@ def clause_reorg_order(R, F):
     fn = db_fn(F, "reorg")
     reorgs = calls_on_field(fn, {"reorg"})
     all_reorg = [c for cs in reorgs.values() for c in cs]
+    fld_of = {id(c): f for f, cs in reorgs.items() for c in cs}
     cc = [c for c in fn.calls() if (c.method or "") == "commit_changes" and not fn.is_cleanup(c.bb)]
     R.ob(bool(cc) and must_pass_on_success(fn, [c.bb for c in cc]), "DOM-order", fn.where(), "DOM-order|reorg|commit",
          "D::reorg does not commit on every success path")
     for c in cc:
         for x in all_reorg:
-            R.ob(fn.sdominates(x.bb, c.bb), "DOM-order", x.where(), "DOM-order|reorg|%s<commit" % self_fields(origin(fn, x.args[0]))[0],
+            R.ob(precedes(fn, x, c), "DOM-order", x.where(), "DOM-order|reorg|%s<commit" % (fld_of.get(id(x)) or "?"),
                  "a table reorg does not precede commit_changes")
     # depth guard
     guard = None
@@ -389,7 +530,7 @@ def clause_reorg_order(R, F):
              "GUARD|D::reorg|depth-form", "depth check is `%s` on the error edge; expected `N - max + 10 + 1 <= 0` from MAX_REORG_HISTORY_SIZE" % fm.text(_role_dreorg),
              sample={"rule": "GUARD", "fn": "D::reorg", "error_edge": fm.text(_role_dreorg)})
         for x in all_reorg:
-            R.ob(fn.sdominates(b, x.bb), "DOM-before", x.where(), "DOM-before|D::reorg|depth<%s" % self_fields(origin(fn, x.args[0]))[0],
+            R.ob(fn.sdominates(b, x.bb), "DOM-before", x.where(), "DOM-before|D::reorg|depth<%s" % (fld_of.get(id(x)) or "?"),
                  "table reorg is not dominated by the depth check")
         # max comes from the global table under the one key
         t = [a for a in fm.lin.terms if _role_dreorg(a) == "max"][0]
@@ -425,7 +566,7 @@ def clause_reorg_height_last(R, F):
             continue
         for c in reorgs.get(field, []):
             for h in hs:
-                R.ob(fn.sdominates(c.bb, h.bb) and c.bb != h.bb, "DOM-order", h.where(), "DOM-order|D::reorg|%s<%s" % (field, src),
+                R.ob(precedes(fn, c, h), "DOM-order", h.where(), "DOM-order|D::reorg|%s<%s" % (field, src),
                      "the height table %s is rolled back before state table %s: a crash in between reopens at the target height with "
                      "state of orphaned blocks still present, and a reorg to that height is then a no-op" % (src, field),
                      sample={"rule": "DOM-order", "fn": "D::reorg", "first": field, "then": src})
